@@ -53,6 +53,8 @@ func c19lLimits(thorough bool) (medium, big []int) {
 	if thorough {
 		all = append(all, 1_000_000, 10_000_000, 50_000_000)
 	}
+	// the limit that the runner really gives the server under test (200 KiB)
+	all = append(all, c19gRunnerServerLimit)
 	for _, limit := range all {
 		if limit >= c19lBig-1 {
 			big = append(big, limit)
@@ -95,6 +97,15 @@ func c19lEnumerate(thorough bool, visit func(tc c19sCase) bool) {
 				return
 			}
 		}
+		// Connect GET: a message of tens of megabytes of zeros is a URL of some ten
+		// kilobytes once compressed; the limit applies to what comes out of it
+		getKs := []int{0, 1}
+		if thorough {
+			getKs = ks
+		}
+		if !c19gEnumerate(limit, []int{1 + i%2}, []string{"proto"}, []string{"gzip"}, []string{"zeros"}, getKs, visit) {
+			return
+		}
 	}
 	// the client's limit: a response of 2n + a few hundred bytes (n bytes of data, echoed once more in the request info)
 	bigResponses := []int{1 << 24}
@@ -122,11 +133,12 @@ func c19lEnumerate(thorough bool, visit func(tc c19sCase) bool) {
 	for _, limit := range medium {
 		small := limit < 1<<17
 		codecs, shapes := []string{"proto"}, []string{"unary", "client-stream"}
-		if small {
+		if c19gFitsURL(limit) {
+			// the reference client sends IdempotentUnary as GET under Connect: the message is in the URL
 			shapes = []string{"unary", "idempotent-unary", "client-stream"}
-			if thorough {
-				codecs = []string{"proto", "json"}
-			}
+		}
+		if small && thorough {
+			codecs = []string{"proto", "json"}
 		}
 		for _, w := range wires {
 			for _, compression := range []string{"identity", "gzip"} {
@@ -147,6 +159,10 @@ func c19lEnumerate(thorough bool, visit func(tc c19sCase) bool) {
 				}
 			}
 		}
+		// hand-built Connect GET, HTTP/1.1 and h2c: uncompressed where the URL stays below 1 MB, gzip everywhere
+		if !c19gEnumerate(limit, []int{1, 2}, []string{"proto"}, []string{"identity", "gzip"}, []string{"zeros"}, ks, visit) {
+			return
+		}
 		for _, w := range rawWires {
 			for _, stream := range []string{"S0", "S+", "S-"} {
 				for _, withLength := range []bool{true, false} {
@@ -156,6 +172,18 @@ func c19lEnumerate(thorough bool, visit func(tc c19sCase) bool) {
 						return
 					}
 				}
+			}
+		}
+	}
+	// further limits whose messages still fit into a URL, hand-built Connect GET only
+	getExps := []int{18}
+	if thorough {
+		getExps = []int{17, 18, 19}
+	}
+	for _, exp := range getExps {
+		for _, limit := range []int{1<<exp - 1, 1 << exp, 1<<exp + 1} {
+			if !c19gEnumerate(limit, []int{1, 2}, []string{"proto"}, []string{"identity", "gzip"}, []string{"zeros"}, ks, visit) {
+				return
 			}
 		}
 	}
